@@ -442,9 +442,9 @@ public:
 	Returns a section of the array, from element i1 up to but not including element i2;
 	If i2 is omitted the subarray will take elements up te the last
 	*/
-	Array slice(int i1, int i2=0) const
+	Array slice(int i1, int i2=-1) const
 	{
-		if(i2==0)
+		if(i2<0) // omitted (an explicit 0 is the empty range [i1, 0))
 			i2=length();
 		Array b(i2-i1);
 		for (int i=i1; i<i2; i++)
@@ -619,8 +619,8 @@ public:
 
 	Enumerator all() {return Enumerator(*this);}
 	Enumerator all() const {return Enumerator(*this);}
-	Enumerator slice_(int i, int j=0) {if(j==0) j=length();return Enumerator(*this, i, j);}
-	Enumerator slice_(int i, int j = 0) const {if(j==0) j=length();return Enumerator(*this, i, j);}
+	Enumerator slice_(int i, int j=-1) {if(j<0) j=length();return Enumerator(*this, i, j);}
+	Enumerator slice_(int i, int j = -1) const {if(j<0) j=length();return Enumerator(*this, i, j);}
 };
 
 /**
